@@ -1,5 +1,219 @@
-(* C05 - placeholder while the proofs are being written *)
-From V Require Import C05.Glue.
-Theorem placeholder : forall active c, ctx_valid c = true -> resolve_parent active (PAsCtx c) = c.
-Proof. intros active c H. unfold resolve_parent. rewrite H. reflexivity. Qed.
-Print Assumptions placeholder.
+(* C05 - New spans get correct identity, parentage, flags and trace state.
+   Every sentence of the property as a theorem about the model (coq/C05/Model.v over coq/C10/Model.v and
+   coq/C12/Model.v); proofs in coq/C05/Proofs*.v.  The id generator and the sampler are oracles: the pure
+   theorems quantify over an arbitrary sampler function [samp] and arbitrary generated ids [gsid] [gtid]. *)
+From V Require Import C10.ProofsCtx C10.ProofsStack C10.ProofsProps.
+From V Require Import C05.Glue C05.ProofsCore C05.ProofsWorld C05.ProofsMeets.
+From V Require Import Gen.Consts.
+From Coq Require Import Lia.
+
+(* --- "given explicitly as a SpanContext, taken from an explicit Context, or else the span active on the calling
+   thread, in that order of precedence": [active] is GetCurrentSpan()->GetContext(); PAsCtx c = options.parent holds
+   the SpanContext c; PAsContext c r = it holds a Context whose span has context c and whose root marker is r *)
+Theorem parent_precedence : forall active : span_ctx,
+  (forall c, ctx_valid c = true -> resolve_parent active (PAsCtx c) = c) /\
+  (forall c, ctx_valid c = false -> resolve_parent active (PAsCtx c) = active) /\
+  (forall c r, ctx_valid c = true -> resolve_parent active (PAsContext c r) = c) /\
+  (forall c, ctx_valid c = false -> resolve_parent active (PAsContext c true) = ctx_invalid) /\
+  (forall c, ctx_valid c = false -> resolve_parent active (PAsContext c false) = active) /\
+  ctx_valid ctx_invalid = false.
+Proof. exact ProofsCore.parent_precedence. Qed.
+Print Assumptions parent_precedence.
+
+(* --- "A span started with a valid parent ... has the parent's trace id, records the parent's span id as its
+   parent, and a fresh non-zero span id" (the id the generator returned; no trace id is drawn) *)
+Theorem child_inherits_trace_id_and_records_parent : forall samp random gsid gtid active pa,
+  let parent := resolve_parent active pa in
+  let b := new_span samp random gsid gtid parent in
+  ctx_valid parent = true ->
+  c_tid (b_ctx b) = c_tid parent /\ b_psid b = c_sid parent /\ c_sid (b_ctx b) = gsid /\ b_tid_calls b = 0%Z.
+Proof. exact ProofsCore.child_inherits_trace_id_and_records_parent. Qed.
+Print Assumptions child_inherits_trace_id_and_records_parent.
+
+(* --- "without a valid parent (or when the context is marked as root) it starts a new trace with fresh non-zero
+   ids and no parent" *)
+Theorem root_has_fresh_ids_no_parent : forall samp random gsid gtid active pa,
+  let parent := resolve_parent active pa in
+  let b := new_span samp random gsid gtid parent in
+  ctx_valid parent = false ->
+  c_tid (b_ctx b) = gtid /\ c_sid (b_ctx b) = gsid /\ b_psid b = zeros 8 /\ b_tid_calls b = 1%Z /\
+  c_ts (b_ctx b) = match sr_ts (b_res b) with Some h => h | None => [] end.
+Proof. exact ProofsCore.root_has_fresh_ids_no_parent. Qed.
+Print Assumptions root_has_fresh_ids_no_parent.
+
+Theorem root_marker_starts_new_trace : forall samp random gsid gtid active c,
+  ctx_valid c = false ->
+  let b := new_span samp random gsid gtid (resolve_parent active (PAsContext c true)) in
+  c_tid (b_ctx b) = gtid /\ b_psid b = zeros 8.
+Proof. exact ProofsCore.root_marker_starts_new_trace. Qed.
+Print Assumptions root_marker_starts_new_trace.
+
+(* "fresh NON-ZERO": the ids are the generator's; the context of the new span is valid exactly when they are
+   non-zero (the trace id only when it is used).  With a generator that returns a zero id the span is still
+   created, but its context is invalid: it is not a parent for anybody and is not propagated. *)
+Theorem invalid_generator_ids : forall samp random gsid gtid parent,
+  let b := new_span samp random gsid gtid parent in
+  (all_zero gsid = true -> ctx_valid (b_ctx b) = false) /\
+  (ctx_valid parent = false -> all_zero gtid = true -> ctx_valid (b_ctx b) = false) /\
+  (all_zero gsid = false -> all_zero gtid = false -> ctx_valid (b_ctx b) = true) /\
+  (all_zero gsid = false -> ctx_valid parent = true -> ctx_valid (b_ctx b) = true).
+Proof. exact ProofsCore.invalid_generator_ids. Qed.
+Print Assumptions invalid_generator_ids.
+
+(* --- "Its sampled flag equals the sampler's decision": for every parent (every one of the 256 flag bytes, valid
+   or not, remote or local) and every answer of every sampler.  (F4, repaired in 6f9bc57: the parent's sampled
+   bit no longer survives a DROP / RECORD_ONLY decision.) *)
+Theorem sampled_flag_equals_decision : forall samp random gsid gtid parent,
+  let b := new_span samp random gsid gtid parent in
+  ctx_sampled (b_ctx b) = is_sampled (sr_dec (b_res b)) /\
+  b_res b = samp parent (if ctx_valid parent then c_tid parent else gtid).
+Proof. exact ProofsCore.sampled_flag_equals_decision_full. Qed.
+Print Assumptions sampled_flag_equals_decision.
+
+(* --- "only W3C level-1 flag bits are set": nothing outside the mask the code applies (read from trace_flags.h:
+   kAllW3CTraceContext1Flags = kIsSampled); the flags byte is 0 or 1; the random-trace-id bit (level 2) never set *)
+Theorem only_level1_flag_bits : forall samp random gsid gtid parent,
+  let b := new_span samp random gsid gtid parent in
+  Z.land (flags_z (b_ctx b)) (255 - c12_kAllW3CTraceContext1Flags) = 0%Z /\
+  (flags_z (b_ctx b) = 0%Z \/ flags_z (b_ctx b) = 1%Z) /\
+  c12_kAllW3CTraceContext1Flags = c12_kIsSampled /\
+  Z.land (flags_z (b_ctx b)) c12_kIsRandom = 0%Z.
+Proof. exact ProofsCore.only_level1_flag_bits_full. Qed.
+Print Assumptions only_level1_flag_bits.
+
+(* --- "its trace state is the sampler's if given else the parent's" (empty for a new trace) *)
+Theorem tracestate_choice : forall samp random gsid gtid parent,
+  let b := new_span samp random gsid gtid parent in
+  c_ts (b_ctx b) =
+  match sr_ts (b_res b) with
+  | Some h => h
+  | None => if ctx_valid parent then c_ts parent else []
+  end.
+Proof. exact ProofsCore.tracestate_choice. Qed.
+Print Assumptions tracestate_choice.
+
+(* --- "a span that is not recorded is never exported yet still exposes this valid context for propagation".
+   (1) pure: recording = the decision; the context (identity, flags, trace state: the theorems above) does not depend on
+       whether the span records; it is local and valid whenever the generator's ids are non-zero;
+   (2) every reachable world, every schedule on every number of threads: the exporter has received exactly the spans
+       that were created recording and were ended, each once;
+   (3) whatever happens later, a span keeps the context (and parent, recording flag) it was started with. *)
+Theorem not_recorded_still_valid_context : forall samp random gsid gtid parent,
+  let b := new_span samp random gsid gtid parent in
+  b_rec b = is_recording (sr_dec (b_res b)) /\
+  c_remote (b_ctx b) = false /\
+  ctx_valid (b_ctx b) = negb (all_zero gsid) && (ctx_valid parent || negb (all_zero gtid)).
+Proof. exact ProofsCore.not_recorded_still_valid_context. Qed.
+Print Assumptions not_recorded_still_valid_context.
+
+Theorem not_recorded_not_exported_but_valid_context : forall cf n ops,
+  let w := fst (srun cf (world0 n) ops) in
+  NoDup (w_exp w) /\
+  (forall k, In k (w_exp w) -> k < length (w_spans w)) /\
+  (forall k s, nth_error (w_spans w) k = Some s -> (In k (w_exp w) <-> sp_rec s = true /\ sp_ended s = true)) /\
+  (forall k s, nth_error (w_spans w) k = Some s -> sp_rec s = false -> ~ In k (w_exp w)).
+Proof. exact ProofsWorld.not_recorded_not_exported_full. Qed.
+Print Assumptions not_recorded_not_exported_but_valid_context.
+
+Theorem span_context_never_changes : forall cf ops w k s,
+  nth_error (w_spans w) k = Some s ->
+  exists s', nth_error (w_spans (fst (srun cf w ops))) k = Some s' /\
+    sp_ctx s' = sp_ctx s /\ sp_psid s' = sp_psid s /\ sp_rec s' = sp_rec s /\ sp_attrs s' = sp_attrs s /\
+    (sp_ended s = true -> sp_ended s' = true).
+Proof. exact span_identity_stable. Qed.
+Print Assumptions span_context_never_changes.
+
+(* --- the world: what one StartSpan does, on any thread of any reachable world *)
+Theorem start_span_in_world : forall cf w t p gsid gtid scr, cf_enabled cf = true ->
+  let b := new_span (cf_samp cf scr) (cf_random cf) gsid gtid
+                    (resolve_parent (active_ctx w t) (eval_parent w t p)) in
+  let w' := fst (sstep cf w t (SStart p gsid gtid scr)) in
+  w_spans w' = w_spans w ++ [mk_span (b_ctx b) (b_psid b) (b_rec b) false (b_attrs b)] /\
+  w_exp w' = w_exp w /\ w_heap w' = w_heap w /\ w_stks w' = w_stks w /\
+  snd (sstep cf w t (SStart p gsid gtid scr)) =
+    OStart (mk_so (active_ctx w t) (cx_obs (eval_parent w t p)) (b_ctx b) (b_rec b) 1 (b_tid_calls b)
+                  (Some (b_seen_parent b, b_seen_tid b, seen_of (b_res b)))).
+Proof. exact start_step. Qed.
+Print Assumptions start_span_in_world.
+
+(* the invariant of every reachable world (well-formed stacks, live contexts, span references that exist, the
+   exporter's log) holds under every schedule *)
+Theorem world_invariant : forall cf n ops, WInv (fst (srun cf (world0 n) ops)).
+Proof. exact WInv_reachable. Qed.
+Print Assumptions world_invariant.
+
+(* --- "several threads each with its own active-span stack": whatever another thread does, the span active on
+   this thread stays the same; a span made active with WithActiveSpan/Scope on a thread is the parent of a span
+   started there with default options, whatever the other threads do in between; releasing the scope
+   re-activates the previous one *)
+Theorem active_span_is_thread_local : forall cf w t u o, WInv w -> u <> t ->
+  active_idx (fst (sstep cf w u o)) t = active_idx w t /\ active_ctx (fst (sstep cf w u o)) t = active_ctx w t.
+Proof. exact ProofsWorld.active_span_is_thread_local. Qed.
+Print Assumptions active_span_is_thread_local.
+
+Theorem child_of_active_span_under_any_schedule : forall cf w t sp ops gsid gtid scr,
+  WInv w -> cf_enabled cf = true -> t < length (w_stks w) ->
+  span_ref_ok w sp = true -> ctx_valid (ctx_of_idx w sp) = true ->
+  on_other_threads t ops ->
+  let w1 := fst (srun cf (fst (sstep cf w t (SCtx (OScope sp)))) ops) in
+  let w2 := fst (sstep cf w1 t (SStart PDef gsid gtid scr)) in
+  exists s, w_spans w2 = w_spans w1 ++ [s] /\
+    c_tid (sp_ctx s) = c_tid (ctx_of_idx w sp) /\ sp_psid s = c_sid (ctx_of_idx w sp) /\ c_sid (sp_ctx s) = gsid.
+Proof. exact ProofsWorld.child_of_active_span_under_any_schedule. Qed.
+Print Assumptions child_of_active_span_under_any_schedule.
+
+Theorem scope_exit_reactivates_previous : forall cf w t sp, WInv w -> span_ref_ok w sp = true -> t < length (w_stks w) ->
+  let w1 := fst (sstep cf w t (SCtx (OScope sp))) in
+  let w2 := fst (sstep cf w1 t (SCtx (OKill (length (w_toks w))))) in
+  active_idx w2 t = active_idx w t /\ active_ctx w2 t = active_ctx w t.
+Proof. exact ProofsWorld.scope_exit_reactivates_previous. Qed.
+Print Assumptions scope_exit_reactivates_previous.
+
+(* the other two mechanisms in a world: they win over whatever is active on the thread *)
+Theorem explicit_span_context_wins : forall cf w t c gsid gtid scr, cf_enabled cf = true -> ctx_valid c = true ->
+  let w' := fst (sstep cf w t (SStart (PSc c) gsid gtid scr)) in
+  exists s, w_spans w' = w_spans w ++ [s] /\ c_tid (sp_ctx s) = c_tid c /\ sp_psid s = c_sid c /\ c_sid (sp_ctx s) = gsid.
+Proof. exact ProofsWorld.explicit_span_context_wins. Qed.
+Print Assumptions explicit_span_context_wins.
+
+Theorem explicit_context_span_wins : forall cf w t i k gsid gtid scr,
+  WInv w -> cf_enabled cf = true -> span_ref_ok w k = true -> ctx_valid (ctx_of_idx w k) = true ->
+  let w1 := fst (sstep cf w t (SCtx (OSet (CIdx i) span_key (KS, k)))) in
+  let w2 := fst (sstep cf w1 t (SStart (PCx (CIdx (length (w_pool w)))) gsid gtid scr)) in
+  exists s, w_spans w2 = w_spans w1 ++ [s] /\
+    c_tid (sp_ctx s) = c_tid (ctx_of_idx w k) /\ sp_psid s = c_sid (ctx_of_idx w k) /\ c_sid (sp_ctx s) = gsid.
+Proof. exact ProofsWorld.explicit_context_span_wins. Qed.
+Print Assumptions explicit_context_span_wins.
+
+Theorem root_marker_context_starts_trace : forall cf w t i gsid gtid scr,
+  WInv w -> cf_enabled cf = true ->
+  span_of (get_value (w_heap w) (nth i (w_pool w) root) span_key) = (-1)%Z ->
+  let w1 := fst (sstep cf w t (SCtx (OSet (CIdx i) root_key (KB, 1%Z)))) in
+  let w2 := fst (sstep cf w1 t (SStart (PCx (CIdx (length (w_pool w)))) gsid gtid scr)) in
+  exists s, w_spans w2 = w_spans w1 ++ [s] /\ c_tid (sp_ctx s) = gtid /\ sp_psid s = zeros 8 /\ c_sid (sp_ctx s) = gsid.
+Proof. exact ProofsWorld.root_marker_context_starts_trace. Qed.
+Print Assumptions root_marker_context_starts_trace.
+
+(* --- this model and C12's model of the sampling part of StartSpan are the same function where C12's is defined
+   (no active span, explicit SpanContext, built-in sampler) *)
+Theorem agrees_with_C12_start_span : forall s explicit gsid gtid random x,
+  let b := new_span (fun p t => let r := should_sample s p t x in mk_sres (fst r) (snd r) None) random gsid gtid
+                    (resolve_parent ctx_invalid (PAsCtx explicit)) in
+  let st := start_span s explicit gtid random x in
+  c_tid (b_ctx b) = st_tid st /\ c_ts (b_ctx b) = st_ts st /\ b_rec b = st_recording st /\ flags_z (b_ctx b) = st_flags st.
+Proof. exact ProofsCore.agrees_with_C12_start_span. Qed.
+Print Assumptions agrees_with_C12_start_span.
+
+(* --- the checker that ./check runs on the implementation's observations accepts the model's observation of every
+   program: every number of threads, every schedule, every configuration - for ANY sampler function that answers the
+   script when it is declared to be the scripted sampler and whose attribute map is null or the scripted one ... *)
+Theorem model_meets_spec_any_sampler : forall cf n ops, samp_ok cf -> spec_case cf ops (run_case cf n ops) = [].
+Proof. exact ProofsMeets.model_meets_spec_any_sampler. Qed.
+Print Assumptions model_meets_spec_any_sampler.
+
+(* ... in particular for every configuration a case file can describe: the built-in samplers of C12 (always on/off,
+   ratio, parent-based), the scripted one, ParentBased around either; enabled or disabled tracer; IsRandom or not *)
+Theorem model_meets_spec : forall enabled random s n ops,
+  spec_case (cfg_of enabled random s) ops (run_case (cfg_of enabled random s) n ops) = [].
+Proof. exact ProofsMeets.model_meets_spec. Qed.
+Print Assumptions model_meets_spec.
